@@ -477,7 +477,7 @@ impl Ctx {
             out: BufWriter::new(f),
             counters: BTreeMap::new(),
             digests: HashSet::new(),
-            digest_cap: 400_000,
+            digest_cap: 60_000,
             samples: Vec::new(),
             sample_cap: 4,
             n_viol: 0,
